@@ -140,6 +140,34 @@ def mutations(gc, P, comp_bytes, unc_bytes, rng, pool):
     return out
 
 
+def degenerate_y_points(rng, n):
+    """points of the twist E'(Fq2) whose y has a ZERO component (y real, or y purely imaginary): the sign rule 'compare y with -y,
+    c1 first, then c0' takes its second arm only for them.  x = x0 + x1 u must make Im(x^3 + 4 + 4u) = 3 x0^2 x1 - x1^3 + 4 vanish;
+    then x^3 + b is in Fq and y is real if it is a square there, purely imaginary otherwise.  (Not subgroup points: a validating
+    decode must reject them; a non-validating decode must still return the root that was encoded.)"""
+    out = []
+    inv3 = pow(3, -1, Q)
+    while len(out) < n:
+        x1 = rng.randrange(1, Q)
+        t = (pow(x1, 3, Q) - 4) * inv3 % Q * pow(x1, -1, Q) % Q
+        if O.fp_legendre(t, Q) != 1:
+            continue
+        x0 = O.fp_sqrt(t, Q) if hasattr(O, 'fp_sqrt') else pow(t, (Q + 1) // 4, Q)
+        if x0 * x0 % Q != t:
+            continue
+        real = (pow(x0, 3, Q) - 3 * x0 * x1 * x1 + 4) % Q
+        if real == 0:
+            continue
+        if O.fp_legendre(real, Q) == 1:
+            y = (pow(real, (Q + 1) // 4, Q), 0)
+        else:
+            y = (0, pow((-real) % Q, (Q + 1) // 4, Q))
+        P = ((x0, x1), y)
+        if O.E2.on_curve(P):
+            out.append(P)
+    return out
+
+
 def worker(sh):
     rng = sh.rng
     lines, meta = [], []
@@ -159,8 +187,17 @@ def worker(sh):
                 meta.append(('marshal', gc, P, comp, k))
             lines.append('c.%s_marshal 1 %s' % (cn, gc.aff(gc.E.neg(P), rng, True)))
             meta.append(('marshal-neg', gc, P, 1, k))
+        degs = {}
+        if which == 2 and sh.index < 8:
+            for j, P in enumerate(degenerate_y_points(rng, 2)):
+                degs['deg%d' % j] = P
+                for comp in (1, 0):
+                    lines.append('c.%s_marshal %d %s' % (cn, comp, gc.aff(P)))
+                    meta.append(('marshal', gc, P, comp, 'deg%d' % j))
+                lines.append('c.%s_marshal 1 %s' % (cn, gc.aff(gc.E.neg(P))))
+                meta.append(('marshal-neg', gc, P, 1, 'deg%d' % j))
         # run marshal first to learn the library's encodings (needed to build the hostile neighbourhood)
-        sh.payload.setdefault('_stage', {})[which] = (gc, tab, pool, ks, len(lines))
+        sh.payload.setdefault('_stage', {})[which] = (gc, tab, pool, ks, len(lines), degs)
     outs = session.run_all(sh, sh.payload['cfgs'], lines)
     encs = {}
     for line, m, out in zip(lines, meta, outs):
@@ -210,9 +247,16 @@ def worker(sh):
     # stage 2: decode round trips + hostile neighbourhood
     lines2, meta2 = [], []
     for which in (1, 2):
-        gc, tab, pool, ks, _ = sh.payload['_stage'][which]
+        gc, tab, pool, ks, _, degs = sh.payload['_stage'][which]
         cn = gc.cname
         nf = 48 if which == 1 else 96
+        for dk, P in degs.items():
+            kindy = 'real' if P[1][1] == 0 else 'imaginary'
+            for key, pt, comp in ((1, P, 1), ('neg', gc.E.neg(P), 1), (0, P, 0)):
+                data = encs.get((which, dk, key))
+                if data is not None:
+                    lines2.append('c.%s_decenc %d %s' % (cn, comp, data.hex()))
+                    meta2.append((gc, 'degenerate-y/%s' % kindy, comp, data, pt))
         for k in ks:
             P = tab.mul(k)
             cb, ub = encs.get((which, k, 1)), encs.get((which, k, 0))
@@ -303,6 +347,10 @@ def worker(sh):
                     fail('accepted string is not what the library itself encodes for the returned point', 'accept:%s:%s:not-reencodable' % (name, form))
                 if not oku or not E.eq(Pu, Pc):
                     fail('non-validating decode of a valid encoding differs from validating decode', 'decode:%s:%s:unchecked-differs' % (name, form))
+        if label.startswith('degenerate-y') and Pknown is not None:
+            # outside the subgroup (so rejected above), but the non-validating decode must return exactly the root that was encoded
+            if not oku or Pu is None or Pu != Pknown:
+                fail('non-validating decode of the library\'s own encoding of a curve point with a zero y-component returned another point', 'decode:%s:%s:degenerate-y-root' % (name, form))
         if okc and Pc is not None and not (E.on_curve(Pc)):
             fail('accepted point is off the curve', 'accept:%s:%s:off-curve-result' % (name, form))
         sh.event(name, cls)
@@ -324,7 +372,7 @@ def run(ctx):
                 'class = (form, accept | reject reason, mutation label)')
     ctx.extra['configs'] = cfgs
     ctx.assumptions = ['Python integer arithmetic', 'oracle/bls.py curve arithmetic']
-    need = []
+    need = ['c.g2_unmarshal|comp/reject:not-in-subgroup/degenerate-y/real', 'c.g2_unmarshal|comp/reject:not-in-subgroup/degenerate-y/imaginary']
     for G in ('g1', 'g2'):
         for c in ('comp', 'unc'):
             need += ['c.%s_unmarshal|%s/accept/roundtrip' % (G, c), 'c.%s_unmarshal|%s/reject:not-in-subgroup' % (G, c), 'c.%s_unmarshal|%s/reject:coordinate-not-reduced' % (G, c),
